@@ -3,7 +3,7 @@
 REPO ?= /repo
 B := build
 NNGB := $(B)/nng-sim
-SAN := -fsanitize=address,undefined -fno-sanitize-recover=all
+SAN := -fsanitize=address,undefined -fno-sanitize-recover=all -fno-sanitize=nonnull-attribute
 NNG_CFLAGS := -O1 -g -fno-omit-frame-pointer $(SAN) -DNDEBUG
 CXX := g++
 CC := gcc
